@@ -180,7 +180,7 @@ class NodeAssignDestructuring:
         if values.isList():
             values = values.value
         elif values.isSet():
-            values = values.value.sortedValues()
+            values = values.getSortedItems()
         else:
             raise CklRuntimeError(
                 ValueString("ERROR"),
